@@ -1,20 +1,27 @@
 """F30 (C15, recorded finding): spawning a child under an explicit id that a LIVE child already has overwrites the
-children-map entry; the earlier child keeps running, unreachable by id, is not stopped by the parent's stop() and stays
-in the actor-system registry."""
+children-map entry; the earlier child can no longer be addressed by id, is not stopped by the parent's stop() and stays
+in the actor-system registry.  Blocking spawn (and the async engine): the earlier child keeps RUNNING after the parent's
+stop().  Thread-managed spawn on the sync engine: since the repair of F40 the earlier child's runner thread stops it at
+its next poll, but its systemId is never taken out of the registry."""
+import time
 from xstate_statemachine import create_machine, MachineLogic, SyncInterpreter
 child = {"id": "c", "initial": "on", "states": {"on": {}}}
-logic = MachineLogic(services={})
-logic.services["w"] = lambda i, c, e: create_machine(child, logic=MachineLogic())
-cfg = {"id": "m", "initial": "on", "states": {"on": {"on": {
-    "A": {"actions": [{"type": "xstate.spawnChild", "params": {"src": "w", "id": "a", "systemId": "sysA"}}]},
-    "B": {"actions": [{"type": "xstate.spawnChild", "params": {"src": "w", "id": "a", "systemId": "sysB"}}]}}}}}
-it = SyncInterpreter(create_machine(cfg, logic=logic)).start()
-it.send("A")
-first = it._actors["m:a"]
-it.send("B")
-import time; time.sleep(0.05)
-it.stop()
-time.sleep(0.05)
-ok = first.status != "running" and "sysA" not in it._system
-print("PASS" if ok else "FAIL", "first child status:", first.status, "registry:", sorted(it._system))
-raise SystemExit(0 if ok else 1)
+bad = []
+for first in ("spawn_blocking_w", "spawn_w"):
+    logic = MachineLogic(services={})
+    logic.services["w"] = lambda i, c, e: create_machine(child, logic=MachineLogic())
+    cfg = {"id": "m", "initial": "on", "states": {"on": {"on": {
+        "A": {"actions": [{"type": first, "params": {"id": "a", "systemId": "sysA"}}]},
+        "B": {"actions": [{"type": "xstate.spawnChild", "params": {"src": "w", "id": "a", "systemId": "sysB"}}]}}}}}
+    it = SyncInterpreter(create_machine(cfg, logic=logic)).start()
+    it.send("A")
+    earlier = it._actors["m:a"]
+    it.send("B")
+    time.sleep(0.05)
+    it.stop()
+    time.sleep(0.05)
+    ok = earlier.status != "running" and "sysA" not in it._system
+    bad.append(not ok)
+    print("PASS" if ok else "FAIL", first, "- earlier child status after the parent's stop():", earlier.status, "registry:", sorted(it._system))
+    earlier.stop()
+raise SystemExit(1 if any(bad) else 0)
